@@ -34,7 +34,7 @@ NOR = 10     # real output taps (last 2 reserved for hazard snippets)
 IB = 50      # bound of integer variables
 
 DEFAULT_FLAGS = dict(max_stmts=12, max_depth=3, internal=True, derived=True, keyword_calls=True,
-                     while_loops=True, select=True, neg_step=False, const_loops=True, n_min=1)
+                     while_loops=True, select=True, neg_step=False, const_loops=True, n_min=1, do_loops=True)
 
 HAZARDS = [
     # constant propagation
@@ -44,12 +44,12 @@ HAZARDS = [
     'stale_second_pass', 'mixed_case_redef', 'member_basename', 'pointer_alias', 'neg_step_unroll',
     'while_zero_trip_assign', 'param_array_2d', 'nested_loop_prologue_outer', 'int_div_neg', 'array_const_elems',
     'simp_int_quot_sum', 'simp_int_quot_product', 'simp_int_quot_like_terms', 'simp_real_div_literal',
-    'simp_real_coeff_div_int', 'simp_real_cancel_to_int', 'simp_neg_product',
+    'simp_real_coeff_div_int', 'simp_real_cancel_to_int', 'simp_neg_product', 'simp_real_quot_sum_literal',
     # dead code
     'simp_cond_int_quot', 'simp_cond_real_literal', 'named_if_exit', 'select_literal_range', 'select_logical',
     # unused vars / args
     'local_kind_param', 'param_in_initializer', 'dummy_only_in_print', 'local_only_in_internal',
-    'dummy_only_in_internal', 'optional_present', 'dummy_only_in_dimension', 'char_len_local', 'sched_both',
+    'dummy_only_in_internal', 'optional_present', 'dummy_only_in_dimension', 'char_len_local', 'sched_both', 'uvars_scalars_with_loops',
 ]
 
 
@@ -288,8 +288,13 @@ class CPGen:
             return f'{_p(a)}**2', desc
         if kind == 'div':
             # numerator and denominator can never fold to a literal (simplify raises on literal / non-literal, C08)
+            # (simplify distributes the quotient over the numerator's terms, so no literal / constant term there)
             b = self.re_v(d - 1)
-            return f'({self.re_v(d - 1)}) / (1.0_8 + abs({b}))', (0, 1.0)
+            nc = [y for y in self.vreal] + ['x1', f'a({self.sub_n()})', f'w({self.sub_n()})']
+            num = rng.choice(nc)
+            if rng.random() < 0.4:
+                num = f'{num}*{rng.choice(nc)}'
+            return f'{num} / (1.0_8 + abs({b}))', (0, 1.0)
         if kind == 'conv':
             return f'real({self.ie_b(d - 1, False, 1000)}, 8)', (0, 1.0)
         f = rng.choice(['sin', 'cos', 'tanh', 'sqrt', 'exp'])
@@ -462,7 +467,7 @@ class CPGen:
     def stmt_loop(self, ind, depth, ctx):
         rng = self.rng
         free = [v for v in ('i', 'j') if v not in [lp['var'] for lp in self.loops]]
-        if not free:
+        if not free or not self.flags['do_loops']:
             return self.simple(ind, ctx)
         lv = free[0]
         const = self.flags['const_loops'] and rng.random() < 0.45
@@ -654,9 +659,12 @@ class CPGen:
               '    real(8), intent(in) :: u(n)', '    real(8), intent(inout) :: q(n)', '    real(8), intent(in) :: f',
               '    integer :: i', '    real(8) :: hu3(n), s']
         L.append(f"    s = {rng.choice(['0.5_8', '0.25_8', '1.5_8'])}")
-        L += ['    do i = 1, n',
-              f"      q(i) = s*q(i) + sin(f*p(i){'' if uu['harr'] else ' + u(i)'})",
-              '    end do', '  end subroutine harr']
+        if self.flags['do_loops']:
+            L += ['    do i = 1, n',
+                  f"      q(i) = s*q(i) + sin(f*p(i){'' if uu['harr'] else ' + u(i)'})",
+                  '    end do', '  end subroutine harr']
+        else:
+            L += [f"    q = s*q + sin(f*p{'' if uu['harr'] else ' + u'})", '  end subroutine harr']
         L += self.extra_hmod
         L += ['end module hmod']
         return '\n'.join(L) + '\n'
@@ -716,6 +724,8 @@ class CPGen:
             s = [f'oi({T1}) = k1 / 2 + k1 / 2']
         elif hz == 'simp_real_div_literal':
             s = [f'orr({R1}) = y1 / 2.0_8']
+        elif hz == 'simp_real_quot_sum_literal':
+            s = [f'orr({R1}) = (y1 - 0.5_8) / (1.0_8 + abs(y2))']
         elif hz == 'simp_real_coeff_div_int':
             s = [f'orr({R1}) = (1.5_8*y1) / 4']
         elif hz == 'simp_real_cancel_to_int':
@@ -726,8 +736,8 @@ class CPGen:
             s = ['if ((k1 + 1) / 2 > 0) then', '  hz1 = 1', 'else', '  hz1 = 2', 'end if', f'oi({T1}) = hz1']
         elif hz == 'simp_cond_real_literal':
             s = ['if (y1 / 2.0_8 > 0.1_8) then', '  hz1 = 1', 'else', '  hz1 = 2', 'end if', f'oi({T1}) = hz1']
-        elif hz == 'sched_both':
-            s = []
+        elif hz in ('sched_both', 'uvars_scalars_with_loops'):
+            s = ['do i = 1, 2', f'  oi({T1}) = oi({T1}) + i', 'end do']
         elif hz == 'stale_second_pass':
             self.used_helpers.add('hset')
             s = ['call hset(k1, 2, hz1)', f'oi({T1}) = hz1', 'hz1 = 4', f'oi({T2}) = hz1']
@@ -847,7 +857,7 @@ class CPGen:
         hmod = self.gen_hmod()
 
         use = sorted({'hset', 'hinc', 'hfun', 'harr'} | set(self.extra_use)) + (['tt'] if f['derived'] else [])
-        L = ['module cmod', f"  use hmod, only: hp, {', '.join(use)}", '  implicit none',
+        L = ['module cmod', f"  use hmod, only: hp, hpl, {', '.join(use)}", '  implicit none',
              '  integer, parameter :: np = 4, nq = 2', '  logical, parameter :: lpf = .false., lpt = .true.',
              '  real(8), parameter :: rp = 1.5_8', '  integer, parameter :: ptab(3) = (/ 2, 7, 1 /)', 'contains']
         # entry (scheduler role: driver)
